@@ -134,7 +134,7 @@ func Main(tier, replay string) {
 		}
 		cases = sel
 	}
-	verbs := []string{"GET", "POST", "PUT", "DELETE", "PATCH"}
+	verbs := []string{"GET", "POST", "PUT", "DELETE", "PATCH", "HEAD", "OPTIONS"} // HEAD and OPTIONS can never be annotated: they must not be served
 	packSize := 50
 	var packs [][]scen.Case
 	for i := 0; i < len(cases); i += packSize {
@@ -283,6 +283,14 @@ func Main(tier, replay string) {
 									shape = "extra-segment-after-trailing-path-parameter"
 								}
 							}
+							if rq.Verb == "HEAD" {
+								// HEAD answered by the handler of the GET route at the same path?
+								for _, ro := range rs {
+									if ro.Verb == "GET" && matches(strings.TrimRight(ro.Template, "/"), strings.TrimRight(strings.SplitN(rq.URL, "?", 2)[0], "/")) {
+										shape = "head-on-a-get-route"
+									}
+								}
+							}
 							run.Report(core.Violation{Oracle: "unannotated-route-is-not-served", Features: feat("request-shape", shape), What: fmt.Sprintf("%s %s is not an annotated route but reached %v %v (status %d)", rq.Verb, rq.URL, calls, auths, resp.Status), Case: c})
 						case len(want) == 1 && (len(calls) != 1 || calls[0] != want[0]):
 							shape := "other"
@@ -313,7 +321,7 @@ func Main(tier, replay string) {
 	run.Outcome("unserved", int64(notServed))
 	run.Sample(cases[0])
 	run.Sample(map[string]any{"request": "GET " + instantiate(routesOf(cases[0])[0].Template), "expect": "CALL " + routesOf(cases[0])[0].Ctl + "." + routesOf(cases[0])[0].Method})
-	run.Bound = fmt.Sprintf("%d route-layout scenarios (the C01 product and multi-controller families, slash-less full routes excluded) x 5 engines x {5 verbs} x {documented path instantiated with v1, one segment dropped, one literal changed, one segment added}", len(cases))
+	run.Bound = fmt.Sprintf("%d route-layout scenarios (the C01 product and multi-controller families, slash-less full routes excluded) x 5 engines x {5 annotatable verbs, HEAD, OPTIONS} x {documented path instantiated with v1, one segment dropped, one literal changed, one segment added}", len(cases))
 	run.Rule = "state = one scenario compiled into all five generated routers; transition = one HTTP request served in-process by one engine; validated = requests whose recorded controller/authorization events were compared with the reference route model"
 	run.Assumptions = []string{"status codes of unserved requests, trailing-slash and letter-case variants are not judged", "engines run in strict configuration (no redirects)"}
 	os.RemoveAll(scratch)
